@@ -260,6 +260,14 @@ Section HermSpec.
         rewrite nth_cs, nth_us, nth_ucol by lia. ring.
   Qed.
 
+  (* Target 2, span statement: v = ||v|| v_0 = sum_q (||v|| U_0q) y_q lies in the span of the Ritz vectors *)
+  Theorem start_ritz_span nrm : 0 < k -> rscale nrm (vat Vs 0) = lincomb n (cs_h nrm) ritzs.
+  Proof.
+    intros Hk.
+    rewrite (start_vector F n k Vs V_len HV nrm Hk), e0_decomp, (V_lincomb F n k Vs V_len HV) by exact us_len.
+    rewrite V_us. reflexivity.
+  Qed.
+
   Variable dexp : K -> K.
 
   (* the coefficient vector of expm_krylov is sum_q c_q dexp(dt w_q) u_q *)
@@ -280,7 +288,7 @@ Section HermSpec.
       change kz with ((fun row : list F => dotu (map cof row) y) []) at 1. rewrite map_nth.
       rewrite (dotu_sumn F k) by (try exact Ly; rewrite map_length; apply Hrow; exact Hi).
       rewrite (nth_lincomb F k) by (try exact us_len; rewrite length_us, Lz; lia). rewrite length_us.
-      apply (sumn_ext (Cx F)). intros q Hq. Set Printing Implicit. Show. rewrite (nth_map_cof F (nth i U [])), Hy by exact Hq.
+      apply (sumn_ext (Cx F)). intros q Hq. rewrite (nth_map_cof F (nth i U [])), Hy by exact Hq.
       rewrite (nth_zipw _ _ _ kz kz) by (unfold cs_h, lams_h; rewrite map_length, seq_length; exact Hq).
       rewrite nth_cs, nth_lams, nth_us, nth_ucol by lia. ring.
   Qed.
@@ -299,8 +307,7 @@ Section HermSpec.
     intros Hk. split.
     - rewrite coeffs_decomp, (V_lincomb F n k Vs V_len HV) by exact us_len. rewrite V_us.
       unfold cs_h, lams_h. rewrite zipw_map. reflexivity.
-    - rewrite (start_vector F n k Vs V_len HV nrm Hk), e0_decomp, (V_lincomb F n k Vs V_len HV) by exact us_len.
-      rewrite V_us. reflexivity.
+    - exact (start_ritz_span nrm Hk).
   Qed.
 
   (* Target 3 (ii): any linear E acting as dexp(dt lam) on lam-eigenvectors of A reproduces the model output *)
@@ -348,14 +355,13 @@ Section HermSpec.
     { intros q Hq. destruct (ritz_exact q Hq) as (R1 & R2 & _).
       pose proof (A_sa x (ritzv q) Lx R2) as Hs. rewrite R1, Ex, vdot_cscale_r, vdot_cscale_l, conj_cof in Hs.
       apply (cof_mul_zero (fsub F (wq q) lam)).
-      - intros E0. apply (flt_irrefl F lam). eapply flt_le_trans; [exact Hlt|].
-        replace lam with (wq q) at 2; [apply Hsort; exact Hq|].
-        transitivity (fadd F (fsub F (wq q) lam) lam); [ring|rewrite E0; ring].
+      - intros E0. assert (El : wq q = lam) by (transitivity (fadd F (fsub F (wq q) lam) lam); [ring|rewrite E0; ring]).
+        apply (flt_irrefl F lam). eapply flt_le_trans; [exact Hlt|]. rewrite <- El. apply Hsort. exact Hq.
       - transitivity (cof (wq q) [*] vdot x (ritzv q) [+] kopp K (cof lam [*] vdot x (ritzv q))).
         + replace (@cof F (fsub F (wq q) lam)) with (ksub K (cof (wq q)) (cof lam))
             by (apply injective_projections; cbn; ring). ring.
         + rewrite Hs. ring. }
-    destruct (expm_spectral_form nrm kz Hk) as [_ Ev]. rewrite Ev.
+    rewrite (start_ritz_span nrm Hk).
     assert (LR : forall y, In y ritzs -> length y = n).
     { intros y Hy. unfold ritzs in Hy. apply in_map_iff in Hy. destruct Hy as (q & <- & _). apply length_ritz. exact Ho. }
     rewrite (vdot_lincomb_r F n) by (try exact LR; unfold cs_h, ritzs; rewrite !map_length; lia).
